@@ -96,7 +96,7 @@ def available_pairs(y, cand, annot, n_cand_rows=None):
     annot = np.asarray(annot)
     if annot.ndim == 1:
         return {(r, int(a)) for r in rows for a in annot}
-    return {(rows[i], a) for i in range(len(rows)) for a in range(m) if annot[i, a]}
+    return {(rows[i], a) for i in range(len(rows)) for a in range(m) if bool(annot[i, a])}
 
 
 class LoopWatch:
@@ -231,6 +231,10 @@ def gen_cases(name, tier):
             out.append((y, None, np.array(a)))
         for A in mats:
             out.append((y, None, A))
+        # the same availability given as an integer 0/1 matrix (array-like that is coerced to bool by validation)
+        for A in mats[1::5]:
+            out.append((y, None, A.astype(int)))
+            out.append((y, [0, 1, 2], A.astype(int)))
         for r in range(1, n + 1):
             for c in itertools.combinations(range(n), r):
                 out.append((y, list(c), None))
@@ -262,7 +266,7 @@ def run_case(acc, name, y, cand, annot, bs, nps, a_perf, bound):
     else:
         cand_arg, n_rows = (None if cand is None else np.array(cand)), len(X)
     avail = available_pairs(y, cand, annot, n_rows if isinstance(cand, tuple) else None)
-    key = (name, y.tobytes(), repr(cand), None if annot is None else (annot.shape, annot.tobytes()), bs, nps, repr(a_perf))
+    key = (name, y.tobytes(), repr(cand), None if annot is None else (annot.shape, str(annot.dtype), annot.tobytes()), bs, nps, repr(a_perf))
     trivial = len(avail) == 0
     is_iet = name == "IntervalEstimationThreshold"
     avail_per_row = {}
@@ -276,11 +280,12 @@ def run_case(acc, name, y, cand, annot, bs, nps, a_perf, bound):
     wit = {"strategy": name, "X": X.tolist(), "y": y.tolist(), "candidates": cand if not isinstance(cand, tuple) else list(cand),
            "annotators": None if annot is None else annot.tolist(), "batch_size": bs, "n_annotators_per_sample": nps, "A_perf": a_perf}
     rep = {"strategy": name, "y": y, "cand": None if cand is None else (list(cand) if isinstance(cand, tuple) else cand),
-           "annot": annot, "bs": bs, "nps": nps, "a_perf": a_perf}
+           "annot": annot, "bs": bs, "nps": nps, "a_perf": a_perf, "int_matrix": bool(annot is not None and annot.ndim == 2 and annot.dtype.kind in "iu")}
     size = int(np.sum(~np.isnan(y))) + bs * 3 + (0 if cand is None else 5) + (0 if annot is None else 5)
     preds = {"cand": "none" if cand is None else ("rows" if isinstance(cand, tuple) else "idx"),
              "annot": "none" if annot is None else ("idx" if annot.ndim == 1 else "matrix"),
-             "empty_availability_row": bool(annot is not None and annot.ndim == 2 and (~annot.any(axis=1)).any()),
+             "empty_availability_row": bool(annot is not None and annot.ndim == 2 and (~annot.astype(bool).any(axis=1)).any()),
+             "int_matrix": bool(annot is not None and annot.ndim == 2 and annot.dtype.kind in "iu"),
              "row_without_pair": bool(len(avail_per_row) < (n_rows if (cand is None or isinstance(cand, tuple)) else len(cand))),
              "bs_gt_rows": bool(bs > (len(cand) if isinstance(cand, list) else n_rows))}
 
@@ -346,7 +351,7 @@ def replay(spec):
     annot = spec["annot"]
     if annot is not None:
         annot = np.asarray(annot)
-        annot = annot.astype(bool) if annot.ndim == 2 else annot.astype(int)
+        annot = (annot.astype(int) if spec.get("int_matrix") else annot.astype(bool)) if annot.ndim == 2 else annot.astype(int)
     nps = None if spec["nps"] is None else int(spec["nps"])
     run_case(acc, spec["strategy"], y, cand, annot, int(spec["bs"]), nps, spec["a_perf"], 1)
     return [(s, k) for (s, k, _p) in acc.groups]
